@@ -91,6 +91,18 @@ fn main() {
                 println!("PANIC {}", p);
             }
         }
+        "seeds" => {
+            // utpsim seeds <property> <scale>: print family and run seed of every planned run
+            let property = args.get(1).cloned().unwrap_or_else(|| usage());
+            let scale: f64 = args.get(2).and_then(|s| s.parse().ok()).unwrap_or(1.0);
+            let fams = families::families(&property);
+            for (fi, f) in fams.iter().enumerate() {
+                let n = ((f.quick as f64) * scale).ceil() as u64;
+                for i in 0..n {
+                    println!("{} {}", f.name, check::fam_seed(base_seed, &fams, fi, i));
+                }
+            }
+        }
         "selftest-determinism" => {
             let n: u64 = args.get(1).and_then(|s| s.parse().ok()).unwrap_or(50);
             let mut total = 0;
